@@ -80,7 +80,10 @@ class BuckGophermapHandler(BaseHandler):
                         entry.host = args[2]
 
                     if len(args) >= 4 and len(args[3]):
-                        entry.port = int(args[3])
+                        try:  # Don't crash if we can't parse the number
+                            entry.port = int(args[3])
+                        except ValueError:
+                            pass
 
                     if entry.gethost() is None and entry.getport() is None:
                         # If we're using links on THIS server, try to fill
